@@ -31,4 +31,6 @@ def run(tier):
     cr.bounded_check(run_cli_matrix, "cli-matrix", tier,
                      f"{len(PROGRAMS)} programs x {len(configs(tier))} invocation modes" + (" (every third pairing in quick)" if tier == "quick" else ""),
                      cr.known)
+    from checks.boxes import data_structure_boxes
+    data_structure_boxes(cr, ("plan",))
     return cr.finish()
